@@ -81,7 +81,9 @@ func (r *validationResponseHandler) HandleValidationResponse(
 		// RFC 9111 §4.3.3 Handling Validation Responses (304 Not Modified)
 		// RFC 9111 §4.3.4 Freshening Stored Responses upon Validation
 		updateStoredHeaders(ctx.Stored.Data, resp)
-		if r.rs != nil {
+		if r.rs != nil && !ctx.CCReq.NoStore() && !ParseCCResponseDirectives(resp.Header).NoStore() {
+			// (RFC 9111 §5.2.1.5, §5.2.2.5: nothing of an exchange that carries
+			// no-store is written, so such a 304 freshens only the response returned.)
 			// Write the freshened response back (with the validation's request and
 			// response times, so that its age restarts) — otherwise every later
 			// request would have to revalidate again.
